@@ -412,17 +412,23 @@ ASIS = {"FallbackShell": "FALSE", "CloseOnFailure": "FALSE", "FallbackOnTimeout"
 FIXED = {"FallbackShell": "TRUE", "CloseOnFailure": "TRUE", "FallbackOnTimeout": "FALSE", "PreambleInShell": "FALSE"}
 LEAK = dict(ASIS, PreambleInShell="TRUE")
 STATE_SHAPES = '{"probe", "nonl"}'
+UTF_SHAPES_Q = '{"utf", "nonl"}'
+UTF_SHAPES_T = '{"utf", "utfl", "multi"}'
+UTF_WIDTHS = "{1, 2, 3, 4}"
+REAL_BUFFERS = (1, 2, 3, 5, 65536)
 STATE_PRES = '{"none", "wd", "env", "both"}'
 INVARIANTS = ["TypeOK", "FreshEquivalence", "OwnOutput", "NoSpuriousTimeout", "ReturnedOnce", "NeverTwice", "VerbatimCommand"]
 
 
 def _shell_cfg(n, timeout, kill, variant, invariants, gen=False, statuses="{0, 3}",
-               shapes='{"empty", "nonl", "multi", "mlike"}', pres='{"none"}'):
+               shapes='{"empty", "nonl", "multi", "mlike"}', pres='{"none"}', utf_len=1, utf_widths="{2}",
+               incremental=True, view=None):
     lines = ['CONSTANTS N = %d  Shapes = %s  Statuses = %s  Pres = %s' % (n, shapes, statuses, pres),
              "CONSTANTS AllowTimeout = %s  AllowKill = %s" % ("TRUE" if timeout else "FALSE", "TRUE" if kill else "FALSE"),
              "CONSTANTS " + "  ".join("%s = %s" % kv for kv in variant.items()),
+             "CONSTANTS UtfLen = %d  UtfWidths = %s  IncrementalDecode = %s" % (utf_len, utf_widths, "TRUE" if incremental else "FALSE"),
              "INIT MCInit", "NEXT %s" % ("GenNext" if gen else "MCNext")]
-    if not gen:
+    if (not gen) if view is None else view:
         lines.append("VIEW View")
     lines += ["INVARIANT %s" % i for i in invariants]
     return "\n".join(lines) + "\n"
@@ -434,6 +440,8 @@ def _norm_beh(b):
         b[key] = b.get(key) or []
     for r in b["ret"]:
         r["out"] = r["out"] or []
+    for a in b["attr"]:
+        a["txt"] = a.get("txt") or []
     b["expected"] = [[e[0], e[1] or [], e[2]] for e in b["expected"]]
     return b
 
@@ -479,9 +487,11 @@ def _judge_session(ctx, beh, obs, world, stats):
         spec_runs, spec_garbled = beh["runs"][k - 1], beh["garbled"][k - 1]
         same_as_spec = (g == spec)
         follows &= same_as_spec and obs["runs"][k] == spec_runs and obs["garbled"][k] == spec_garbled
-        ctx.case((world, _beh_key(beh), k), nontrivial=True)
+        ctx.case((world, _beh_key(beh), k, beh.get("bufsize")), nontrivial=True)
         stats["%s:calls" % world] += 1
         hc = _history_class(beh, k)
+        if beh.get("bufsize"):
+            hc = "%s:buffer-%d" % (hc, beh["bufsize"])
         detail = {"kind": "session", "world": world, "behaviour": beh, "call": k, "observed": got, "expected": exp,
                   "spec": spec, "runs": obs["runs"][k], "spec_runs": spec_runs, "garbled": obs["garbled"][k],
                   "notes": obs.get("notes")}
@@ -489,6 +499,9 @@ def _judge_session(ctx, beh, obs, world, stats):
         if g != exp:
             if g["kind"] == "ok" and exp["kind"] == "ok":
                 clause = "output" if g["out"] != exp["out"] else "status"
+                if clause == "output" and ss.REPLACEMENT in g["out"] and ss.REPLACEMENT not in exp["out"]:
+                    # characters came back as U+FFFD: a read boundary inside a multi-byte character was not bridged
+                    clause = "character-split-by-read"
             elif exp["kind"] == "ok":
                 clause = "raised-%s" % g["kind"]
             else:
@@ -560,6 +573,8 @@ def _features(b):
     f = set()
     for k, a in enumerate(b["attr"], 1):
         f.add(("shape", a["shape"], _history_class(b, k)))
+        if a.get("txt"):
+            f.add(("txt", tuple(a["txt"]), a["slow"]))
         f.add(("slow", a["slow"], a["tmo"]))
         f.add(("via", b["ret"][k - 1]["via"], b["ret"][k - 1]["kind"], a["shape"]))
         f.add(("runs", b["runs"][k - 1]))
@@ -604,7 +619,7 @@ def _replay_real_batch(ctx, behs, stats):
 
     async def one(b, T, STALL):
         counter[0] += 1
-        return await ss.replay_real(b, os.path.join(root, "s%d" % counter[0]), script, T, STALL)
+        return await ss.replay_real(b, os.path.join(root, "s%d" % counter[0]), script, T, STALL, b.get("bufsize") or 65536)
 
     def follows(b, obs):
         n = len(b["attr"])
@@ -703,6 +718,63 @@ async def _large_outputs(ctx, stats):
         await se.guarded(conn.undeploy(False), 30)
 
 
+UNICODE_SMALL = ["\u00e9", "\u20ac", "\U0001f600", "a\u00e9\u20ac\U0001f600", "\U0001f600\u00e9", "\u20ac\u20acx",
+                 "caf\u00e9 \u20ac42 \U0001f600 na\u00efve \U0001f680 end"]
+
+
+async def _unicode_outputs(ctx, stats):
+    """Real shell, real /bin/sh, real pipe: outputs made of multi-byte characters.  The chunking of a real pipe cannot
+    be imposed, but the connector's transferBufferSize bounds every read: (i) short texts through connectors with a
+    buffer of 1..7 bytes (every read of 1..3 bytes necessarily ends inside the wider characters), (ii) 130 KB .. 1 MiB
+    of 2-, 3- and 4-byte characters and of lines of varying alignment through the default 64 KiB buffer and through
+    4099 bytes (a prime: the read boundaries drift through every offset of a character)."""
+    root = ctx.scratch("unicode")
+    Remote = se.make_remote_class()
+    loc = se.location()
+    conns = {}
+    n_big = ctx.pick(70000, 350000)
+    texts = [("small-%d" % i, t, bs) for i, t in enumerate(UNICODE_SMALL) for bs in ctx.pick((1, 2, 3, 7), (1, 2, 3, 4, 5, 7, 16))]
+    big = [("width-%d" % w, ss_chars(w) * n_big) for w in (2, 3, 4)]
+    big.append(("mixed-lines", "\n".join("x" * (i % 7) + "\u20ac" * 150 + "\U0001f600" * (i % 5) + "\u00e9" * (i % 3)
+                                        for i in range(ctx.pick(300, 1500)))))
+    texts += [(name, t, bs) for name, t in big for bs in (65536, 4099)]
+    try:
+        for idx, (name, text, bs) in enumerate(texts):
+            if bs not in conns:
+                conns[bs] = Remote("vh-unicode-%d" % bs, root, bs)
+            for nl in (0, 1):
+                path = os.path.join(root, "t%d_%d.txt" % (idx, nl))
+                with open(path, "w", encoding="utf-8") as f:
+                    f.write(text + ("\n" if nl else ""))
+                res, exc = await se.guarded(conns[bs].run(loc, ["cat", path], capture_output=True, timeout=120), 200)
+                ctx.case(("unicode", name, bs, nl))
+                stats["real:unicode_output_cases"] += 1
+                want = (text, 0)
+                got = tuple(res) if isinstance(res, tuple) else ("raised:%s" % se.describe_exc(exc) if exc else repr(res))
+                if got != want:
+                    split = isinstance(got, tuple) and isinstance(got[0], str) and "\ufffd" in got[0]
+                    first = next((i for i, (a, b) in enumerate(zip(text, got[0])) if a != b), min(len(text), len(got[0]))) \
+                        if isinstance(got, tuple) and isinstance(got[0], str) else None
+                    ctx.violation("session:%s:unicode-%s:buffer-%d" % ("character-split-by-read" if split else "output",
+                                                                     name.split("-")[0] if name.startswith("small") else name, bs),
+                                  {"kind": "large", "text": name, "chars": len(text), "bytes": len(text.encode()), "nl": nl,
+                                   "buffer": bs, "first_difference_at_char": first,
+                                   "got": (got[0][max(0, (first or 0) - 10):(first or 0) + 30], got[1]) if isinstance(got, tuple) else got},
+                                  "persistent shell with transferBufferSize %d: %d characters (%d bytes) of multi-byte text came "
+                                  "back %s" % (bs, len(text), len(text.encode()),
+                                               ("with %d U+FFFD, first difference at character %s" % (got[0].count("\ufffd"), first))
+                                               if split else (got if not isinstance(got, tuple) else "altered (length %d, status %s)"
+                                                              % (len(got[0]), got[1]))))
+    finally:
+        for c in conns.values():
+            await se.guarded(c.undeploy(False), 30)
+
+
+def ss_chars(w):
+    from vh.sut import shell_session as ss
+    return ss.CHARS[w]
+
+
 def _quiet_logs():
     import logging
     try:
@@ -743,7 +815,7 @@ def _model_cex(ctx, invs):
     return cex
 
 
-def _replay_cex(ctx, cex, stats):
+def _replay_cex(ctx, cex, stats, where="model_counterexamples"):
     from vh.sut import shell_session as ss
     # the model's counterexamples, replayed: does the real code follow them?  (A counterexample is a prefix of a
     # behaviour; the verdicts on the code come from the complete generated behaviours above, here we only record
@@ -762,9 +834,9 @@ def _replay_cex(ctx, cex, stats):
             g = {"kind": got["kind"], "out": ss.normalise_output(got["out"]) if got["kind"] == "ok" else "",
                  "st": got["st"] if got["kind"] == "ok" else 0}
             ok &= (g == ss.spec_obs(pb, k))
-        stats["fake:counterexamples_replayed"] += 1
-        stats["fake:counterexamples_followed_by_the_code"] += 1 if ok else 0
-        ctx.extra.setdefault("model_counterexamples", []).append(
+        stats["fake:%s_replayed" % ("counterexamples" if where == "model_counterexamples" else where)] += 1
+        stats["fake:%s_followed_by_the_code" % ("counterexamples" if where == "model_counterexamples" else where)] += 1 if ok else 0
+        ctx.extra.setdefault(where, []).append(
             {"invariant": b["cex_of"], "attr": pb["attr"], "hist": b["hist"], "code_follows": ok})
 
 
@@ -788,6 +860,35 @@ def part_a(ctx):
                 timeout=1800)
     if not r.ok:
         ctx.require(False, "Shell: the as-coded protocol changes the session state in the model (%s)\n%s" % (r.violated, r.stdout[-1500:]))
+    # text made of multi-byte characters: the pipe carries byte units, a chunk may end inside a character, the
+    # shell's incremental decoder carries the pending units to the next read (every chunking, every text of <= 2
+    # characters of 1..4 units, two commands in a row)
+    r = ctx.tlc("Shell", "MC_Shell", "utf.cfg",
+                files={"utf.cfg": _shell_cfg(2, False, False, ASIS, INVARIANTS + ["WholeCharacters"], statuses=ctx.pick("{0}", "{0, 3}"),
+                                             shapes=ctx.pick(UTF_SHAPES_Q, UTF_SHAPES_T), utf_len=2, utf_widths=UTF_WIDTHS)},
+                timeout=3000)
+    if not r.ok:
+        ctx.require(False, "Shell: multi-byte text is not returned verbatim in the model (%s): specification error\n%s"
+                    % (r.violated, r.stdout[-1500:]))
+    utf_cex = []
+    if not ctx.quick:
+        # repaired protocol with timeouts that fire while half a character is pending in the decoder
+        r = ctx.tlc("Shell", "MC_Shell", "utf_fixed.cfg",
+                    files={"utf_fixed.cfg": _shell_cfg(2, True, True, FIXED, INVARIANTS + ["WholeCharacters"], statuses="{0}",
+                                                       shapes=UTF_SHAPES_Q, utf_len=2, utf_widths="{2, 4}")}, timeout=3000)
+        if not r.ok:
+            ctx.require(False, "Shell: the repaired protocol loses multi-byte text in the model (%s)\n%s" % (r.violated, r.stdout[-1500:]))
+        # sensitivity: a decoder without memory (every chunk decoded on its own) must violate WholeCharacters in the model
+        r = ctx.tlc("Shell", "MC_Shell", "utf_stateless.cfg",
+                    files={"utf_stateless.cfg": _shell_cfg(1, False, False, ASIS, ["WholeCharacters"], statuses="{0}", shapes='{"utf"}',
+                                                           utf_len=1, utf_widths=UTF_WIDTHS, incremental=False)}, timeout=1800)
+        ctx.require(r.error == "invariant" and r.trace, "per-chunk decoding must violate WholeCharacters in the model")
+        last = r.trace[-1]["state"]
+        b = _norm_beh({"attr": last["attr"], "hist": last["hist"], "ret": last["ret"], "runs": last["runs"],
+                       "garbled": last["garbled"], "expected": None})
+        b["expected"] = [["ok", ss.out_tokens(a["shape"], k + 1, txt=a["txt"]), a["status"]] for k, a in enumerate(b["attr"])]
+        b["cex_of"] = "WholeCharacters (IncrementalDecode = FALSE)"
+        utf_cex.append(b)
     if not ctx.quick:
         # sensitivity: with the preamble executed by the session shell itself the model must see the leak
         r = ctx.tlc("Shell", "MC_Shell", "leak.cfg",
@@ -827,6 +928,28 @@ def part_a(ctx):
     ctx.require(follow_up >= 10, "vacuous: only %d probe commands follow a command with workdir/environment" % follow_up)
     ctx.count("session:state_behaviours_generated", len(state_behs))
     ctx.count("session:probe_after_preamble_pairs", follow_up)
+    # behaviours whose commands print multi-byte text (timeouts, stalls in the middle of a character and shell death
+    # included): simulated, thorough: additionally EVERY chunking of every text of <= 2 characters (one command)
+    utf_behs = []
+    gens = [ctx.tlc("Shell", "MC_Shell", "gen_utf.cfg",
+                    files={"gen_utf.cfg": _shell_cfg(2, True, True, ASIS, [], gen=True, statuses="{0}", shapes='{"utf", "utfl", "nonl"}',
+                                                     utf_len=2, utf_widths=UTF_WIDTHS)}, workers=1, count=False,
+                    simulate={"num": ctx.pick(400, 2000), "depth": 70}, timeout=3000)]
+    if not ctx.quick:
+        gens.append(ctx.tlc("Shell", "MC_Shell", "gen_utf_all.cfg",
+                            files={"gen_utf_all.cfg": _shell_cfg(1, False, False, ASIS, [], gen=True, statuses="{0}", shapes='{"utf"}',
+                                                                 utf_len=2, utf_widths=UTF_WIDTHS)}, workers=1, count=False, timeout=3000))
+    for gx in gens:
+        for b in gx.printed_json():
+            if "hist" not in b:
+                continue
+            b = _norm_beh(b)
+            key = _beh_key(b)
+            if key not in seen:
+                seen.add(key)
+                utf_behs.append(b)
+    ctx.count("session:utf_behaviours_generated", len(utf_behs))
+    ctx.require(len(utf_behs) >= 100, "only %d behaviours with multi-byte text generated" % len(utf_behs))
     ctx.require(len(behs) >= 100, "only %d behaviours generated" % len(behs))
     acts = {}
     for b in behs:
@@ -842,14 +965,27 @@ def part_a(ctx):
     _t(ctx, "a:generate")
     # ---- 3. chunk-exact binding on the scripted environment (virtual time)
     _replay_fake_batch(ctx, behs + state_behs, stats)
+    res = _replay_fake_batch(ctx, utf_behs, stats)
+    split = [o["split_reads"] for o in res if not o["unparsed"]]
+    stats["fake:reads_ending_inside_a_character"] = sum(split)
+    stats["fake:behaviours_with_a_read_ending_inside_a_character"] = sum(1 for x in split if x)
+    ctx.require(sum(1 for x in split if x) >= ctx.pick(50, 400) or stats["fake:framing_not_understood"],
+                "vacuous: only %d replayed behaviours had a read that ends inside a multi-byte character" % sum(1 for x in split if x))
     _replay_cex(ctx, cex, stats)
+    _replay_cex(ctx, utf_cex, stats, "decoder_sensitivity")
     ctx.sample({"behaviour": {"attr": behs[0]["attr"], "hist": behs[0]["hist"]}, "spec_ret": behs[0]["ret"]})
     _t(ctx, "a:fake")
     # ---- 4. real /bin/sh sessions
     chosen = _select(behs, ctx.pick(24, 120), ctx.rng("real")) + _select(state_behs, ctx.pick(14, 80), ctx.rng("real-state"))
+    # multi-byte text in real sessions: the read size (transferBufferSize) is the handle on the chunking
+    chosen += [dict(b, bufsize=REAL_BUFFERS[i % len(REAL_BUFFERS)])
+               for i, b in enumerate(_select(utf_behs, ctx.pick(12, 60), ctx.rng("real-utf")))]
     _replay_real_batch(ctx, chosen, stats)
     _t(ctx, "a:real")
     _, exc = aio.run(_large_outputs(ctx, stats), timeout=1200)
+    if exc is not None:
+        raise exc
+    _, exc = aio.run(_unicode_outputs(ctx, stats), timeout=1800)
     if exc is not None:
         raise exc
     _t(ctx, "a:large")
